@@ -47,3 +47,36 @@ def check(ctx):
         ctx.check(ok, "T9-eol", h.ast, "%s selects the earliest end of line" % fname,
                   "%s: a line ending that occurs earlier in the buffer but is tried later in the eols tuple is skipped, so the "
                   "same bytes parse differently depending on which line endings are present" % why)
+    http_line_endings(ctx)
+
+
+def http_line_endings(ctx):
+    """HTTP lines end in CRLF (LF tolerated); a bare CR is not an end of line.  Only the event-stream parser reads with CR as a
+    third delimiter - and pays for it with look-ahead state (C33 T9-crlf).  A request/status/header/chunk line read with CR
+    allowed ends at the CR of a CRLF whose LF has not arrived yet, and the LF then reads as the empty line that ends the head."""
+    ctx.rule("T6-eols", "every parseLine/parseLeader call of the HTTP message parsers reads with eols = (CRLF, LF)")
+    n = 0
+    defaults = {}
+    hm = ctx.repo.mod("aio.http.httping")
+    for fn in [x for x in hm.tree.body if isinstance(x, ast.FunctionDef) and x.name in ("parseLine", "parseLeader")]:
+        names = [a.arg for a in fn.args.args]
+        dv = dict(zip(names[len(names) - len(fn.args.defaults):], fn.args.defaults))
+        defaults[fn.name] = src(dv["eols"]).replace(" ", "") if "eols" in dv else None
+    for modn in ("aio.http.serving", "aio.http.clienting", "aio.http.httping"):
+        m = ctx.repo.mod(modn)
+        ctx.consulted.add(m.relpath)
+        for holder in [m.tree] + [c for c in m.tree.body if isinstance(c, ast.ClassDef)]:
+            for fn in [x for x in holder.body if isinstance(x, ast.FunctionDef)]:
+                if isinstance(holder, ast.ClassDef) and holder.name == "EventSource":
+                    continue
+                for c in [x for x in ast.walk(fn) if isinstance(x, ast.Call)]:
+                    cn = (call_name(c) or "").split(".")[-1]
+                    if cn not in ("parseLine", "parseLeader"):
+                        continue
+                    n += 1
+                    kw = [k.value for k in c.keywords if k.arg == "eols"]
+                    eff = src(kw[0]).replace(" ", "") if kw else (src(c.args[1]).replace(" ", "") if len(c.args) > 1 else defaults.get(cn))
+                    ctx.check(eff in ("(CRLF,LF)", "(CRLF,)", "eols"), "T6-eols", c, "%s: %s(.., eols=%s)" % (fn.name, cn, eff),
+                              "with a bare CR accepted as end of line, a receive boundary between the CR and the LF of a CRLF makes the "
+                              "LF an empty line: the head ends early, headers and body are left as the next message")
+    ctx.floor("T6-eols:calls", n, 8)
